@@ -492,9 +492,11 @@ func runE2EInner(c *E2ECase, res *E2EResult) {
 			}
 			ps := g.take()
 			if len(ps) == 0 {
+				// operations are blocked inside oras-go for ever (no exchange is parked):
+				// the bubble cannot be left any more; the caller records the violation
 				res.Deadlock = true
-				close(g.quit)
-				wg.Wait()
+				res.Decisions = append([]Dec(nil), res.Decisions...)
+				onDeadlock(c, res)
 				return
 			}
 			var pick *parked
@@ -667,6 +669,10 @@ func runE2EInner(c *E2ECase, res *E2EResult) {
 		res.API = append(res.API, list(repoB, s, ""))
 	}
 }
+
+// onDeadlock records the violation and stops the harness (a synctest bubble with
+// blocked goroutines cannot be left).
+var onDeadlock = func(c *E2ECase, res *E2EResult) {}
 
 func opByID(c *E2ECase, id int) *Op {
 	for _, r := range c.Rounds {
